@@ -71,7 +71,39 @@ let b2s b = if b then "1" else "0"
 
 let parse_bits () : bool list = let n = next_int () in times n (fun () -> next () = "1")
 
+let rec int_of_pos = function XH -> 1 | XO p -> 2 * int_of_pos p | XI p -> 2 * int_of_pos p + 1
+let int_of_n = function N0 -> 0 | Npos p -> int_of_pos p
+
+(* mode tx: <id> <nfile> <table ids> <n> <B|C|R|X|T<id>>* *)
+let tx_main () =
+  (try
+    while true do
+      let line = input_line stdin in
+      if line <> "" then begin
+        toks := Array.of_list (Stdlib.List.filter (fun s -> s <> "") (String.split_on_char ' ' line));
+        pos := 0;
+        let id = next () in
+        let nf = next_int () in
+        let file = times nf (fun () -> n_of_int (next_int ())) in
+        let n = next_int () in
+        let ss = times n (fun () ->
+          match next () with
+          | "B" -> TBegin | "C" -> TCommit | "R" -> TRollback | "X" -> TBad
+          | t when t.[0] = 'T' -> TCreate (n_of_int (int_of_string (String.sub t 1 (String.length t - 1))))
+          | t -> failwith ("tstmt " ^ t)) in
+        let (o, left) = tx_observe ss file in
+        let os = match o with
+          | TOk -> "ok" | TRefused -> "refused" | TRestoreFail -> "rfail"
+          | TFail k -> Printf.sprintf "fail:%d" (int_of_nat k) in
+        let tabs = Stdlib.List.sort compare (Stdlib.List.map int_of_n left) in
+        let ts = if tabs = [] then "-" else String.concat "," (Stdlib.List.map string_of_int tabs) in
+        Printf.printf "%s out=%s tabs=%s\n" id os ts
+      end
+    done
+  with End_of_file -> ())
+
 let () =
+  if Array.length Sys.argv > 1 && Sys.argv.(1) = "tx" then tx_main () else
   (try
     while true do
       let line = input_line stdin in
